@@ -1,10 +1,12 @@
 #!/bin/sh
-# tools/seed_sweep.sh [seed-dir ...]: run the quick check of the owning property against every seeded change; one line per seed.
+# tools/seed_sweep.sh [seed-dir | seed-dir:CHECK ...]: run the quick check of the owning property against every seeded change; one line per seed.
 # Not a registered check. Patches the repository named by VERIF_REPO (default /repo) and reverts it after each seed.
 cd "$(dirname "$0")/.." || exit 2
 S="$*"; [ -z "$S" ] && S=$(ls seeded)
 for s in $S; do
   id=${s%-*}
+  # "C09-10:C03" runs the check of C03 (a sibling property) against seed C09-10
+  case "$s" in *:*) id=${s#*:}; s=${s%%:*};; esac
   p=seeded/$s/patch.diff
   [ -f seeded/$s/patch_rebased_on_fixes.diff ] && p=seeded/$s/patch_rebased_on_fixes.diff
   t0=$(date +%s)
@@ -13,5 +15,5 @@ for s in $S; do
   v=$(echo "$out" | grep "^violations:" | head -1)
   rc=$(echo "$out" | grep "^exit code:" | tail -1)
   sub=$(echo "$out" | grep "^---- violation in sub-check" | sed 's/.*sub-check \([a-z_0-9]*\).*/\1/' | sort -u | tr '\n' ',')
-  echo "$s $v $rc subs=$sub wall=$((t1-t0))s"
+  echo "$s check=$id $v $rc subs=$sub wall=$((t1-t0))s"
 done
